@@ -24,3 +24,5 @@ def run(prog, rep):
     r_safe.run_buf(prog, rep)
     from ..rules import r_flow
     r_flow.run_forward(prog, rep, which=(), mode='Compression', rid='R-FORWARD-COMP', floor=8, backend=True)
+    from ..rules import r_key
+    r_key.run_handles_only(prog, rep)
